@@ -35,3 +35,6 @@ def native(tier, seed):
 def replay_native(native):
     from vf import sched_native
     return sched_native.replay(native)
+
+
+from props.C01 import MUTATIONS  # noqa: E402,F401 (same module under contract)
